@@ -81,7 +81,7 @@ PROPS["C04"] = dict(
 
 PROPS["C06"] = dict(
     level="proof",
-    verus=["c04_partition", "c10_engine", "c02_regex", "c06_matches"],
+    verus=["c04_partition", "c10_engine", "c02_regex"],
     labels=["C06.", "C07.engine.", "C10.engine.ok_replaces_rules", "C07.tags_with_set.", "C02.regex.make.function_of_inputs", "C02.regex.compile.function_of_inputs"] + MASK,
     kani=[],
     witness=["c06_cache.rs"],
